@@ -21,6 +21,9 @@
       `total_loss_le_power_partial` : `0 ≤ Loss ≤ Power` for the total row.
       `total_pwr_sub_loss_partial` : `Power − Loss = Σ Power of the LOAD rows`.
    3. `total_eff_le_100_table_partial` : the efficiency cell of the total row is in [0, 100].
+   4. `subsystem_loss_le_power_partial`, `subsystem_eff_le_100_partial` : every "Subsystem" row has
+      `0 ≤ Loss ≤ Power` and an efficiency in [0, 100] (`D_feeder`: a row has the Domain of the row that
+      feeds it; `domain_balance`: the C02 balance restricted to the rows of one Domain).
    5. `table_energies_add_up` : in the `assemble`d multi-phase table the k-th component row of every
       phase is the same component, its energy cell is `_calc_energy(phase, Power)` and the cells add up
       to `24 h × Σ_p Power_p·d_p / Σ d`.  `table_total_energies_add_up` : when the table holds all
@@ -36,7 +39,13 @@
      `Source(5 V) → Converter(vo = 0, iq = 0.1 A)` has total Power 0 W, Loss 0.5 W.
    * phase values of loads are assumed ≥ 0 (`PhaseValOK`); the state is an EXACT steady state (`Steady`),
      tolerance-converged states are not covered.
-   * item 4 of the task (the same per "Subsystem" row) is NOT delivered — see the note at the end.
+   * (4) additionally assumes `NamesDistinct` (ALL component names distinct; used through
+     `C16R.compRows_spec`) and `MuxInputsPlain`: above every input of a PMux the first-parent path to the
+     root passes no PMux.  `muxInputsPlain_of_oneMux`: this holds whenever the system has at most one PMux
+     (`OneMux`) — which `add_comp` / `change_comp` enforce ("a system can only have one PMux"), so
+     `subsystem_loss_le_power_oneMux_partial` covers every system `System` can build.  The solver view
+     `SSys` itself does not exclude a mux above a mux, and there (4) fails on the model:
+     `subsystem_loss_le_power_full_fails` (note at the end).
    * (5) needs every output to carry a non-empty phase name and `Σ d ≠ 0`; (5′) additionally that the
      outputs are exactly the declared phases (distinct names), at least two.
 -/
@@ -45,6 +54,7 @@ import SysLoss.Model.Table
 import SysLoss.Props.C02
 import SysLoss.Props.C02Table
 import SysLoss.Props.C07
+import SysLoss.Props.C16Renumber
 import Mathlib.Algebra.BigOperators.Group.List.Basic
 import Mathlib.Algebra.Order.BigOperators.Group.List
 import Mathlib.Tactic.NormNum
@@ -770,6 +780,386 @@ theorem total_pwr_sub_loss_partial (s : SSys α) (hwf : TreeWF s) (hnames : SrcN
   rw [e]
   ring
 
+/-! ### 7. one subsystem -/
+
+/-- all component names are distinct (what `System` enforces) -/
+def NamesDistinct (s : SSys α) : Prop :=
+  ∀ n m nd md, s.node? n = some nd → s.node? m = some md → nd.comp.name = md.comp.name → n = m
+
+theorem NamesDistinct.src {s : SSys α} (h : NamesDistinct s) : SrcNamesDistinct s :=
+  fun n m nd md hn hm _ _ e => h n m nd md hn hm e
+
+theorem tableWF_of (s : SSys α) (hwf : TreeWF s) (hnames : NamesDistinct s) : C16R.TableWF s where
+  names := hnames
+  nodup := hwf.nodup
+  order := by
+    intro pre n post hl nd p rest hnd hp
+    exact order_pre s hwf pre n post hl nd hnd p (by rw [hp]; simp)
+  roots := fun n nd hnd hp => (hwf.rootSrc n nd hnd).mp hp
+
+/-- the first-parent path from `n` up to its root passes no PMux (`n` included) -/
+inductive Plain (s : SSys α) : Nat → Prop
+  | root (n : Nat) (nd : SNode α) : s.node? n = some nd → nd.parents = [] → Plain s n
+  | step (n : Nat) (nd : SNode α) (p : Nat) (rest : List Nat) : s.node? n = some nd → nd.parents = p :: rest →
+      nd.comp.kind ≠ .pmux → Plain s p → Plain s n
+
+/-- no PMux above a PMux: above every input of a PMux the supply path is mux-free -/
+def MuxInputsPlain (s : SSys α) : Prop :=
+  ∀ n nd, s.node? n = some nd → nd.comp.kind = .pmux → ∀ p ∈ nd.parents, Plain s p
+
+/-- at most one PMux (`add_comp` / `change_comp`: "a system can only have one PMux") -/
+def OneMux (s : SSys α) : Prop :=
+  ∀ n m nd md, s.node? n = some nd → s.node? m = some md → nd.comp.kind = .pmux → md.comp.kind = .pmux → n = m
+
+/-- with at most one PMux there is no PMux above a PMux -/
+theorem muxInputsPlain_of_oneMux (s : SSys α) (hwf : TreeWF s) (h1 : OneMux s) : MuxInputsPlain s := by
+  intro n nd hnd hk p hp
+  have key : ∀ k q, q ∈ s.topo → s.topo.idxOf q ≤ k → s.topo.idxOf q < s.topo.idxOf n → Plain s q := by
+    intro k
+    induction k with
+    | zero =>
+      intro q hq hle _
+      obtain ⟨qd, hqd⟩ := node_of_mem s hwf q hq
+      cases hpp : qd.parents with
+      | nil => exact Plain.root q qd hqd hpp
+      | cons p' rest =>
+        have := (parent_idx_lt s hwf q p' qd hqd (by rw [hpp]; simp)).2
+        omega
+    | succ k ih =>
+      intro q hq hle hlt
+      obtain ⟨qd, hqd⟩ := node_of_mem s hwf q hq
+      cases hpp : qd.parents with
+      | nil => exact Plain.root q qd hqd hpp
+      | cons p' rest =>
+        obtain ⟨hpt', hlt'⟩ := parent_idx_lt s hwf q p' qd hqd (by rw [hpp]; simp)
+        have hqk : qd.comp.kind ≠ .pmux := by
+          intro e
+          have := h1 q n qd nd hqd hnd e hk
+          subst this
+          omega
+        exact Plain.step q qd p' rest hqd hpp hqk (ih p' hpt' (by omega) (by omega))
+  obtain ⟨hpt, hlt⟩ := parent_idx_lt s hwf n p nd hnd hp
+  exact key _ p hpt (le_refl _) hlt
+
+/-- a domain assignment that the table loop realises: `D n` is what `compRow` hands on for `n` when started
+    from the domain of `n`'s first parent -/
+def DomSpec (s : SSys α) (phase : String) (ta : α) (v i : Vec α) (st : St) (D : Nat → String) : Prop :=
+  ∀ n ∈ s.topo, D n = (s.compRow phase ta v i st n (C16R.startD s D n)).2
+
+theorem startD_cons (s : SSys α) (D : Nat → String) (n : Nat) (nd : SNode α) (hnd : s.node? n = some nd)
+    (p : Nat) (rest : List Nat) (hp : nd.parents = p :: rest) : C16R.startD s D n = D p := by
+  unfold C16R.startD; simp only [hnd, hp]
+
+/-- below a mux-free path the domain is the name of the root -/
+theorem D_plain (s : SSys α) (hwf : TreeWF s) (phase : String) (ta : α) (v i : Vec α) (st : St)
+    (D : Nat → String) (hD : DomSpec s phase ta v i st D) (p : Nat) (hpl : Plain s p) :
+    p ∈ s.topo → ∀ fuel, s.topo.idxOf p ≤ fuel → D p = s.nameOf (s.rootOf fuel p) := by
+  induction hpl with
+  | root n nd hnd hp =>
+    intro hn fuel _
+    have hk := (hwf.rootSrc n nd hnd).mp hp
+    have hr : s.rootOf fuel n = n := by
+      cases fuel with
+      | zero => rfl
+      | succ f => simp only [SSys.rootOf, hnd, hp]
+    rw [hr, hD n hn, (C07aux_domain_step s phase ta v i st n nd hnd _).2.1 hk]
+    unfold SSys.nameOf; rw [hnd]
+  | step n nd p rest hnd hp hk _ ih =>
+    intro hn fuel hle
+    obtain ⟨hpt, hlt⟩ := parent_idx_lt s hwf n p nd hnd (by rw [hp]; simp)
+    have hns : nd.comp.kind ≠ .source := by
+      intro e
+      have := (hwf.rootSrc n nd hnd).mpr e
+      rw [hp] at this; cases this
+    cases fuel with
+    | zero => omega
+    | succ f =>
+      have hr : s.rootOf (f + 1) n = s.rootOf f p := by simp only [SSys.rootOf, hnd, hp]
+      rw [hr, hD n hn, (C07aux_domain_step s phase ta v i st n nd hnd _).2.2.1 hns hk,
+        startD_cons s D n nd hnd p rest hp]
+      exact ih hpt f (by omega)
+
+/-- with off-flags only on 0 V inputs, the input a mux selects is its first input at non-zero voltage -/
+theorem firstNonZero_eq_pri (v : Vec α) (st : St) (hflag : ∀ n, sget st n = true → vget v n = 0) :
+    ∀ (pp : List Nat) (k0 k : Nat), priInpAux (pp.map (sget st)) (pp.map (vget v)) k0 = some k →
+      firstNonZero (pp.map (vget v)) k0 = k := by
+  intro pp
+  induction pp with
+  | nil => intro k0 k h; simp [priInpAux] at h
+  | cons a rest ih =>
+    intro k0 k h
+    simp only [List.map_cons, priInpAux] at h
+    simp only [List.map_cons, firstNonZero]
+    by_cases hc : (!sget st a && !isZ (vget v a)) = true
+    · simp only [hc, if_true, Option.some.injEq] at h
+      simp only [Bool.and_eq_true] at hc
+      simp only [hc.2, if_true]
+      exact h
+    · simp only [hc, Bool.false_eq_true, if_false] at h
+      have hz : isZ (vget v a) = true := by
+        cases ho : sget st a with
+        | true => exact (isZ_iff _).mpr (hflag a ho)
+        | false =>
+          cases hz : isZ (vget v a) with
+          | true => rfl
+          | false => simp [ho, hz] at hc
+      simp only [hz, Bool.not_true, Bool.false_eq_true, if_false]
+      cases rest with
+      | nil => simp [priInpAux] at h
+      | cons b rest' => exact ih (k0 + 1) k h
+
+/-- **A node has the Domain of its feeder** (steady state, no mux above a mux). -/
+theorem D_feeder (s : SSys α) (hwf : TreeWF s) (hmp : MuxInputsPlain s) (phase : String) (ta : α) (v i : Vec α)
+    (st : St) (hflag : ∀ n, sget st n = true → vget v n = 0)
+    (D : Nat → String) (hD : DomSpec s phase ta v i st D) (c p : Nat) (hc : c ∈ s.topo)
+    (hf : feederM s v st c = some p) : D c = D p := by
+  obtain ⟨cd, hcd⟩ := node_of_mem s hwf c hc
+  obtain ⟨_, d2, d3, d4⟩ := C07aux_domain_step s phase ta v i st c cd hcd (C16R.startD s D c)
+  by_cases hk : cd.comp.kind = .pmux
+  · rw [feederM_mux s v st c cd hcd hk] at hf
+    cases hsel : priInpAux (cd.parents.map (sget st)) (cd.parents.map (vget v)) 0 with
+    | none => rw [hsel] at hf; cases hf
+    | some k =>
+      rw [hsel] at hf
+      simp only [Option.map_some, Option.some.injEq] at hf
+      obtain ⟨h1, _, _, _⟩ := pri_some_spec _ _ k hsel
+      rw [List.length_map] at h1
+      have hpin : p ∈ cd.parents := by rw [← hf]; exact getD_mem_of_lt _ _ h1
+      obtain ⟨hpt, _⟩ := parent_idx_lt s hwf c p cd hcd hpin
+      have hfuel : s.topo.idxOf p ≤ s.hidx :=
+        le_trans (le_of_lt (List.idxOf_lt_length_of_mem hpt)) (topo_length_le s hwf)
+      rw [hD c hc, d4 hk, firstNonZero_eq_pri v st hflag cd.parents 0 k hsel, hf]
+      exact (D_plain s hwf phase ta v i st D hD p (hmp c cd hcd hk p hpin) hpt s.hidx hfuel).symm
+  · rw [feederM_nonmux s v st c cd hcd hk] at hf
+    cases hp : cd.parents with
+    | nil => rw [hp] at hf; cases hf
+    | cons q rest =>
+      rw [hp] at hf
+      simp only [List.head?_cons, Option.some.injEq] at hf
+      subst hf
+      have hns : cd.comp.kind ≠ .source := by
+        intro e
+        have := (hwf.rootSrc c cd hcd).mpr e
+        rw [hp] at this; cases this
+      rw [hD c hc, d3 hns hk, startD_cons s D c cd hcd q rest hp]
+
+open Finset in
+/-- **Balance of one domain**: the rows attributed to `d` form a sub-forest closed under "is fed by", so
+    the power of its un-fed rows equals the power delivered to its loads plus its losses. -/
+theorem domain_balance (s : SSys α) (hwf : TreeWF s) (hmp : MuxInputsPlain s) (hok : CompsOK s)
+    (phase : String) (ta : α) (v i : Vec α) (st : St) (hst : Steady s phase v i st) (hi : ∀ m, 0 ≤ vget i m)
+    (D : Nat → String) (hD : DomSpec s phase ta v i st D) (d : String) :
+    ((s.topo.filter fun n => D n == d).map fun n =>
+        if feederM s v st n = none then (rowOf s phase ta v i st n).pwr else 0).sum
+      = ((s.topo.filter fun n => D n == d).map fun n =>
+        if isLoadB s n then (rowOf s phase ta v i st n).pwr + (rowOf s phase ta v i st n).loss
+        else (rowOf s phase ta v i st n).loss).sum := by
+  have hLn : (s.topo.filter fun n => D n == d).Nodup := hwf.nodup.filter _
+  rw [← List.sum_toFinset _ hLn, ← List.sum_toFinset _ hLn]
+  have hmemL : ∀ n, n ∈ (s.topo.filter fun n => D n == d).toFinset ↔ n ∈ s.topo ∧ D n = d := by
+    intro n; simp [List.mem_filter]
+  have hmem : ∀ n, n ∈ (s.topo.filter fun n => D n == d).toFinset → ∃ nd, s.node? n = some nd := fun n hn =>
+    node_of_mem s hwf n ((hmemL n).mp hn).1
+  have hload : ∀ n nd, s.node? n = some nd → (isLoadB s n = true ↔ nd.comp.kind.ctype = .LOAD) := by
+    intro n nd h; unfold isLoadB; rw [h]; simp
+  have hrow := fun n nd h => row_ok s hwf hok phase ta v i st hst hi n nd h
+  have hfeedD : ∀ c p, c ∈ s.topo → feederM s v st c = some p → D c = D p := fun c p hc hf =>
+    D_feeder s hwf hmp phase ta v i st hst.flag D hD c p hc hf
+  have hfeedT : ∀ c p, c ∈ s.topo → feederM s v st c = some p → p ∈ s.topo := by
+    intro c p hc hf
+    obtain ⟨cd, hcd⟩ := node_of_mem s hwf c hc
+    exact (parent_idx_lt s hwf c p cd hcd (feederM_mem s v st c p cd hcd hf)).1
+  apply system_balance (s.topo.filter fun n => D n == d).toFinset (feederM s v st) ?_ (isLoadB s)
+    (rowOf s phase ta v i st)
+  · intro c hc p hp
+    obtain ⟨cd, hcd⟩ := hmem c hc
+    obtain ⟨_, _, r3, _⟩ := hrow c cd hcd
+    obtain ⟨pd, hpd⟩ := Option.isSome_iff_exists.mp (hwf.parLive c cd hcd p (feederM_mem s v st c p cd hcd hp))
+    rw [r3 p hp, (hrow p pd hpd).1]
+  · intro n hn
+    obtain ⟨nd, hnd⟩ := hmem n hn
+    obtain ⟨hnt, hnD⟩ := (hmemL n).mp hn
+    obtain ⟨_, _, _, _, _, r6⟩ := hrow n nd hnd
+    have hk : kidsOf (s.topo.filter fun n => D n == d).toFinset (feederM s v st) n
+        = kidsOf s.topo.toFinset (feederM s v st) n := by
+      ext c
+      simp only [kidsOf, Finset.mem_filter]
+      constructor
+      · rintro ⟨hc, hf⟩
+        exact ⟨List.mem_toFinset.mpr ((hmemL c).mp hc).1, hf⟩
+      · rintro ⟨hc, hf⟩
+        have hct := List.mem_toFinset.mp hc
+        exact ⟨(hmemL c).mpr ⟨hct, (hfeedD c n hct hf).trans hnD⟩, hf⟩
+    rw [r6, hk, kidsM_eq s hwf v st n nd hnd, Finset.sum_filter, List.sum_toFinset _ (hwf.chNodup n nd hnd)]
+    congr 1
+    apply List.map_congr_left
+    intro c hc
+    obtain ⟨cd, hcd⟩ := Option.isSome_iff_exists.mp (hwf.chLive n nd hnd c hc)
+    rw [(hrow c cd hcd).2.1]
+  · intro n hn hl
+    obtain ⟨nd, hnd⟩ := hmem n hn
+    have hnl : nd.comp.kind.ctype ≠ .LOAD := by
+      intro e; rw [(hload n nd hnd).mpr e] at hl; cases hl
+    exact ((hrow n nd hnd).2.2.2.1 hnl).1
+  · intro n hn hl hp
+    obtain ⟨nd, hnd⟩ := hmem n hn
+    have hnl : nd.comp.kind.ctype ≠ .LOAD := by
+      intro e; rw [(hload n nd hnd).mpr e] at hl; cases hl
+    exact ((hrow n nd hnd).2.2.2.1 hnl).2.1 hp
+  · intro n hn hl
+    obtain ⟨nd, hnd⟩ := hmem n hn
+    exact (hrow n nd hnd).2.2.2.2.1 ((hload n nd hnd).mp hl)
+  · intro c hc p hp
+    obtain ⟨hct, hcD⟩ := (hmemL c).mp hc
+    exact (hmemL p).mpr ⟨hfeedT c p hct hp, (hfeedD c p hct hp).symm.trans hcD⟩
+
+/-- **(4) Every "Subsystem" row: 0 ≤ Loss ≤ Power.**  Hypotheses of (2) with all component names
+    distinct, plus `MuxInputsPlain` (no PMux above a PMux; needed: `subsystem_loss_le_power_full_fails`). -/
+theorem subsystem_loss_le_power_partial (s : SSys α) (hwf : TreeWF s) (hnames : NamesDistinct s)
+    (hmp : MuxInputsPlain s) (hok : CompsOK s)
+    (phase : String) (hpv : ∀ n nd, s.node? n = some nd → PhaseValOK (nd.pconf.ctx phase))
+    (ta : α) (v i : Vec α) (st : St) (hst : Steady s phase v i st) :
+    ∀ sub ∈ (s.phaseTable phase ta v i st).subs,
+      ∃ P L, sub.pwr = some P ∧ sub.loss = some L ∧ 0 ≤ L ∧ L ≤ P := by
+  intro sub hsub
+  have hi := steady_currents_nonneg s hwf hok.phys phase hpv v i st hst.back
+  obtain ⟨d, _, _, hloss, _, hpwr, _, _⟩ := subs_spec s phase ta v i st sub hsub
+  have htopo : ∀ n, n ∈ s.topo ↔ ∃ nd, s.node? n = some nd := fun n =>
+    (hwf.live n).trans Option.isSome_iff_exists
+  obtain ⟨D, hrows, hDs⟩ := C16R.compRows_spec htopo (tableWF_of s hwf hnames) phase ta v i st
+  have hD : DomSpec s phase ta v i st D := hDs
+  have hbal := domain_balance s hwf hmp hok phase ta v i st hst hi D hD d
+  -- the rows, one per listed node
+  have hdom : ∀ n ∈ s.topo, (s.compRow phase ta v i st n (C16R.startD s D n)).1.domain = D n := by
+    intro n hn
+    obtain ⟨nd, hnd⟩ := node_of_mem s hwf n hn
+    rw [(C07aux_domain_step s phase ta v i st n nd hnd _).1, ← hD n hn]
+  have hcell : ∀ n, rP (s.compRow phase ta v i st n (C16R.startD s D n)).1 = (rowOf s phase ta v i st n).pwr ∧
+      rL (s.compRow phase ta v i st n (C16R.startD s D n)).1 = (rowOf s phase ta v i st n).loss ∧
+      (s.compRow phase ta v i st n (C16R.startD s D n)).1.typ = (s.compRow phase ta v i st n "").1.typ := by
+    intro n
+    have := domainFree_compRow (fun r : Row α => (rP r, rL r, r.typ)) (fun _ _ => rfl) s phase ta v i st n
+      (C16R.startD s D n) ""
+    simp only [Prod.mk.injEq] at this
+    exact ⟨this.1, this.2.1, this.2.2⟩
+  have hfilt : ∀ (q : Row α → Bool),
+      (s.compRows phase ta v i st).filter (fun r => r.domain == d && q r)
+        = ((s.topo.filter fun n => D n == d).filter fun n =>
+            q (s.compRow phase ta v i st n (C16R.startD s D n)).1).map
+            fun n => (s.compRow phase ta v i st n (C16R.startD s D n)).1 := by
+    intro q
+    rw [hrows, List.filter_map, List.filter_filter]
+    congr 1
+    apply List.filter_congr
+    intro n hn
+    simp only [Function.comp, hdom n hn, Bool.and_comm]
+  -- Loss
+  have hL : optSum (((s.compRows phase ta v i st).filter (·.domain == d)).map (·.loss))
+      = ((s.topo.filter fun n => D n == d).map fun n => (rowOf s phase ta v i st n).loss).sum := by
+    have h1 := hfilt (fun _ => true)
+    simp only [Bool.and_true, List.filter_true] at h1
+    rw [h1, optSum_map, List.map_map]
+    congr 1
+    apply List.map_congr_left
+    intro n _
+    exact (hcell n).2.1
+  -- Power: at most one source carries the name `d`
+  have hP : ((((s.compRows phase ta v i st).filter fun r => r.domain == d && r.typ == "SOURCE").head?).bind
+        (·.pwr)).getD 0
+      = ((s.topo.filter fun n => D n == d).map fun n =>
+          if feederM s v st n = none then (rowOf s phase ta v i st n).pwr else 0).sum := by
+    have hterm : ∀ n ∈ (s.topo.filter fun n => D n == d),
+        (if feederM s v st n = none then (rowOf s phase ta v i st n).pwr else 0)
+          = if ((s.compRow phase ta v i st n (C16R.startD s D n)).1.typ == "SOURCE") = true
+              then (rowOf s phase ta v i st n).pwr else 0 := by
+      intro n hn
+      obtain ⟨nd, hnd⟩ := node_of_mem s hwf n (List.mem_filter.mp hn).1
+      have htyp : (s.compRow phase ta v i st n "").1.typ = nd.comp.kind.ctype.name := by
+        unfold SSys.compRow; simp only [hnd]
+      obtain ⟨_, _, _, r4, r5, _⟩ := row_ok s hwf hok phase ta v i st hst hi n nd hnd
+      rw [(hcell n).2.2, htyp, kind_name_source]
+      by_cases hk : nd.comp.kind = .source
+      · have hf : feederM s v st n = none := by
+          rw [feederM_nonmux s v st n nd hnd (by rw [hk]; decide), (hwf.rootSrc n nd hnd).mpr hk]; rfl
+        simp [hk, hf]
+      · simp only [hk, decide_false, Bool.false_eq_true, if_false]
+        by_cases hf : feederM s v st n = none
+        · rw [if_pos hf]
+          by_cases hl : nd.comp.kind.ctype = .LOAD
+          · exact absurd hf (r5 hl).1
+          · exact (r4 hl).2.2 hf hk
+        · rw [if_neg hf]
+    rw [List.map_congr_left hterm, ← sum_filter_map, hfilt (fun r => r.typ == "SOURCE")]
+    generalize hS : ((s.topo.filter fun n => D n == d).filter fun n =>
+      (s.compRow phase ta v i st n (C16R.startD s D n)).1.typ == "SOURCE") = S
+    have hSn : S.Nodup := by rw [← hS]; exact (hwf.nodup.filter _).filter _
+    have hSm : ∀ n ∈ S, ∃ nd, s.node? n = some nd ∧ nd.comp.name = d := by
+      intro n hn
+      rw [← hS] at hn
+      obtain ⟨hn1, hn2⟩ := List.mem_filter.mp hn
+      obtain ⟨hnt, hnD⟩ := List.mem_filter.mp hn1
+      obtain ⟨nd, hnd⟩ := node_of_mem s hwf n hnt
+      refine ⟨nd, hnd, ?_⟩
+      have htyp : (s.compRow phase ta v i st n "").1.typ = nd.comp.kind.ctype.name := by
+        unfold SSys.compRow; simp only [hnd]
+      rw [(hcell n).2.2, htyp, kind_name_source] at hn2
+      have hk : nd.comp.kind = .source := by simpa using hn2
+      have e := hD n hnt
+      rw [(C07aux_domain_step s phase ta v i st n nd hnd _).2.1 hk] at e
+      rw [← e]; simpa using hnD
+    match S, hSn, hSm with
+    | [], _, _ => simp
+    | [a], _, _ =>
+      simp only [List.map_cons, List.map_nil, List.head?_cons, Option.bind_some, List.sum_cons, List.sum_nil,
+        add_zero]
+      exact (hcell a).1
+    | a :: b :: rest, hSn, hSm =>
+      exfalso
+      obtain ⟨ad, had, hna⟩ := hSm a (by simp)
+      obtain ⟨bd, hbd, hnb⟩ := hSm b (by simp)
+      have : a = b := hnames a b ad bd had hbd (hna.trans hnb.symm)
+      simp [this] at hSn
+  refine ⟨_, _, hpwr, hloss, ?_, ?_⟩
+  · rw [hL]
+    apply List.sum_nonneg
+    intro y hy
+    obtain ⟨n, hn, rfl⟩ := List.mem_map.mp hy
+    obtain ⟨nd, hnd⟩ := node_of_mem s hwf n (List.mem_filter.mp hn).1
+    exact (rowOf_nonneg s hwf hok.phys phase ta v i st hst hi n nd hnd).2
+  · rw [hL, hP, hbal]
+    apply List.sum_le_sum
+    intro n hn
+    obtain ⟨nd, hnd⟩ := node_of_mem s hwf n (List.mem_filter.mp hn).1
+    have := (rowOf_nonneg s hwf hok.phys phase ta v i st hst hi n nd hnd).1
+    split_ifs
+    · linarith
+    · exact le_refl _
+
+/-- (4) for systems with at most one PMux — every system `System` can build -/
+theorem subsystem_loss_le_power_oneMux_partial (s : SSys α) (hwf : TreeWF s) (hnames : NamesDistinct s)
+    (h1 : OneMux s) (hok : CompsOK s)
+    (phase : String) (hpv : ∀ n nd, s.node? n = some nd → PhaseValOK (nd.pconf.ctx phase))
+    (ta : α) (v i : Vec α) (st : St) (hst : Steady s phase v i st) :
+    ∀ sub ∈ (s.phaseTable phase ta v i st).subs,
+      ∃ P L, sub.pwr = some P ∧ sub.loss = some L ∧ 0 ≤ L ∧ L ≤ P :=
+  subsystem_loss_le_power_partial s hwf hnames (muxInputsPlain_of_oneMux s hwf h1) hok phase hpv ta v i st hst
+
+/-- **(4′) Every "Subsystem" row: efficiency within [0, 100]** (hypotheses of (4)). -/
+theorem subsystem_eff_le_100_partial (s : SSys α) (hwf : TreeWF s) (hnames : NamesDistinct s)
+    (hmp : MuxInputsPlain s) (hok : CompsOK s)
+    (phase : String) (hpv : ∀ n nd, s.node? n = some nd → PhaseValOK (nd.pconf.ctx phase))
+    (ta : α) (v i : Vec α) (st : St) (hst : Steady s phase v i st) :
+    ∀ sub ∈ (s.phaseTable phase ta v i st).subs, ∃ e, sub.eff = some e ∧ 0 ≤ e ∧ e ≤ 100 := by
+  intro sub hsub
+  obtain ⟨P, L, hP, hL, h0, h1⟩ :=
+    subsystem_loss_le_power_partial s hwf hnames hmp hok phase hpv ta v i st hst sub hsub
+  obtain ⟨d, _, _, _, _, _, heff, _⟩ := subs_spec s phase ta v i st sub hsub
+  refine ⟨_, heff P L hP hL, ?_, total_eff_le_100 P L h0 h1⟩
+  unfold getEff
+  split_ifs
+  · rw [nabs_eq_abs]; exact mul_nonneg (by norm_num) (abs_nonneg _)
+  · norm_num
+
 /-! ### 5. energies of the multi-phase table -/
 
 /-- energy cell of a phase row: power × 24 h × the phase's share of the cycle (an unknown phase has
@@ -963,6 +1353,46 @@ example : (mxSys.phaseTable "" 25 mxV mxI mxSt).total.pwr = some 20 ∧
     (mxSys.phaseTable "" 25 mxV mxI mxSt).subs.map (·.name) = ["Subsystem S2", "Subsystem S1"] := by
   decide +kernel
 
+/-! ### non-vacuity of (4): the two-source mux example (its inputs are roots) -/
+
+theorem mxAllNames : NamesDistinct mxSys := by
+  intro n m nd md hn hm hnm
+  rcases mxNodes n nd hn with ⟨rfl, rfl⟩ | ⟨rfl, rfl⟩ | ⟨rfl, rfl⟩ | ⟨rfl, rfl⟩ <;>
+    rcases mxNodes m md hm with ⟨rfl, rfl⟩ | ⟨rfl, rfl⟩ | ⟨rfl, rfl⟩ | ⟨rfl, rfl⟩ <;>
+    simp [mxN0, mxN1, mxN2, mxN3, mxS1, mxS2, mxMx, mxLd] at hnm ⊢
+
+theorem mxPlain : MuxInputsPlain mxSys := by
+  intro n nd hn hk p hp
+  rcases mxNodes n nd hn with ⟨rfl, rfl⟩ | ⟨rfl, rfl⟩ | ⟨rfl, rfl⟩ | ⟨rfl, rfl⟩ <;>
+    simp [mxN0, mxN1, mxN2, mxN3, mxS1, mxS2, mxMx, mxLd] at hk hp
+  rcases hp with rfl | rfl
+  · exact Plain.root 0 mxN0 rfl rfl
+  · exact Plain.root 1 mxN1 rfl rfl
+
+theorem mxOneMux : OneMux mxSys := by
+  intro n m nd md hn hm kn km
+  rcases mxNodes n nd hn with ⟨rfl, rfl⟩ | ⟨rfl, rfl⟩ | ⟨rfl, rfl⟩ | ⟨rfl, rfl⟩ <;>
+    rcases mxNodes m md hm with ⟨rfl, rfl⟩ | ⟨rfl, rfl⟩ | ⟨rfl, rfl⟩ | ⟨rfl, rfl⟩ <;>
+    simp [mxN0, mxN1, mxN2, mxN3, mxS1, mxS2, mxMx, mxLd] at kn km ⊢
+
+example : MuxInputsPlain mxSys := muxInputsPlain_of_oneMux mxSys mxWF mxOneMux
+
+example : ∀ sub ∈ (mxSys.phaseTable "" 25 mxV mxI mxSt).subs,
+    ∃ P L, sub.pwr = some P ∧ sub.loss = some L ∧ 0 ≤ L ∧ L ≤ P :=
+  subsystem_loss_le_power_oneMux_partial mxSys mxWF mxAllNames mxOneMux mxOK "" mxPV 25 mxV mxI mxSt mxSteady
+
+example : ∀ sub ∈ (mxSys.phaseTable "" 25 mxV mxI mxSt).subs,
+    ∃ P L, sub.pwr = some P ∧ sub.loss = some L ∧ 0 ≤ L ∧ L ≤ P :=
+  subsystem_loss_le_power_partial mxSys mxWF mxAllNames mxPlain mxOK "" mxPV 25 mxV mxI mxSt mxSteady
+
+example : ∀ sub ∈ (mxSys.phaseTable "" 25 mxV mxI mxSt).subs, ∃ e, sub.eff = some e ∧ 0 ≤ e ∧ e ≤ 100 :=
+  subsystem_eff_le_100_partial mxSys mxWF mxAllNames mxPlain mxOK "" mxPV 25 mxV mxI mxSt mxSteady
+
+/-- "Subsystem S2" (idle 5 V source): 0 W, 0 W, 100 %; "Subsystem S1": 20 W, 4 W, 80 % -/
+example : (mxSys.phaseTable "" 25 mxV mxI mxSt).subs.map (fun r => (r.name, r.pwr, r.loss, r.eff))
+    = [("Subsystem S2", some 0, some 0, some 100), ("Subsystem S1", some 20, some 4, some 80)] := by
+  decide +kernel
+
 /-! ### non-vacuity of (5), (5′): the same tree with two phases "a" (1 s) and "b" (3 s) -/
 
 def enSys : SSys ℚ := { tbSys with phases := [("a", 1), ("b", 3)] }
@@ -1029,18 +1459,185 @@ theorem total_loss_le_power_full_fails : ¬ total_loss_le_power_full := by
   rw [← hP, ← hL] at hle
   norm_num at hle
 
-/-! ### note on the per-subsystem statement (task item 4, not delivered)
+/-! ### (4) needs "no mux above a mux": the statement without `MuxInputsPlain` fails on the model
+  (a tree `System` refuses to build — "a system can only have one PMux" — but which `SSys`, `TreeWF` allow)
 
-  `0 ≤ Loss ≤ Power` for one "Subsystem d" row needs the balance restricted to the rows whose Domain is
-  `d`, i.e. that set has to be closed under "is fed by".  For a PMux the model (like `_find_domain`)
-  takes the Domain from the root above the first input at non-zero voltage, following FIRST parents
-  (`SSys.rootOf`), whereas its children are attributed through the input the mux SELECTED
-  (`_get_pri_inp`), and a mux above that input redirects its own Domain again.  With a mux above a mux
-  the rows of one supply path can therefore carry different Domains, and a subsystem whose source idles
-  can be charged the losses of a path fed by another source: the per-subsystem inequality is false in
-  general and would need an additional "no mux above a mux" hypothesis.  (In the Python the choice among
-  several roots is even the iteration order of a `set`.)  The total row is not affected: every row is
-  attributed to exactly one listed subsystem (`rows_domain_covered`). -/
+  Source A (0 V, idle), Source B (10 V) → PMux M1 [A, B] → PMux M2 (1 Ω) → ILoad (2 A).
+  M1 selects B and is attributed to B; M2 looks for the root above M1 along FIRST parents and is
+  attributed to A, and so is the load.  "Subsystem A" reads Power 0 W, Loss 4 W. -/
+
+def nmA : Comp ℚ := { name := "A", kind := .source, par := .const 0, vo := 0 }
+def nmB : Comp ℚ := { name := "B", kind := .source, par := .const 0, vo := 10 }
+def nmM1 : Comp ℚ := { name := "M1", kind := .pmux, par := .const 0, rs := 0 }
+def nmM2 : Comp ℚ := { name := "M2", kind := .pmux, par := .const 0, rs := 1 }
+def nmL : Comp ℚ := { name := "L", kind := .iload, par := .const 0, ii := 2 }
+def nmN0 : SNode ℚ := { comp := nmA, parents := [], childs := [2], pconf := .names [] }
+def nmN1 : SNode ℚ := { comp := nmB, parents := [], childs := [2], pconf := .names [] }
+def nmN2 : SNode ℚ := { comp := nmM1, parents := [0, 1], childs := [3], pconf := .names [] }
+def nmN3 : SNode ℚ := { comp := nmM2, parents := [2], childs := [4], pconf := .names [] }
+def nmN4 : SNode ℚ := { comp := nmL, parents := [3], childs := [] }
+def nmSys : SSys ℚ :=
+  { nodes := #[some nmN0, some nmN1, some nmN2, some nmN3, some nmN4], topo := [0, 1, 2, 3, 4] }
+def nmV : Vec ℚ := #[0, 10, 10, 8, 0]
+def nmI : Vec ℚ := #[0, 2, 2, 2, 2]
+def nmSt : St := #[[true], [false], [false], [false], [false]]
+
+theorem nmNodes (n : Nat) (nd : SNode ℚ) (h : nmSys.node? n = some nd) :
+    (n = 0 ∧ nd = nmN0) ∨ (n = 1 ∧ nd = nmN1) ∨ (n = 2 ∧ nd = nmN2) ∨ (n = 3 ∧ nd = nmN3) ∨
+      (n = 4 ∧ nd = nmN4) := by
+  rcases n with _ | _ | _ | _ | _ | n
+  · have h2 : nmSys.node? 0 = some nmN0 := rfl
+    rw [h2] at h; exact Or.inl ⟨rfl, (Option.some.inj h).symm⟩
+  · have h2 : nmSys.node? 1 = some nmN1 := rfl
+    rw [h2] at h; exact Or.inr (Or.inl ⟨rfl, (Option.some.inj h).symm⟩)
+  · have h2 : nmSys.node? 2 = some nmN2 := rfl
+    rw [h2] at h; exact Or.inr (Or.inr (Or.inl ⟨rfl, (Option.some.inj h).symm⟩))
+  · have h2 : nmSys.node? 3 = some nmN3 := rfl
+    rw [h2] at h; exact Or.inr (Or.inr (Or.inr (Or.inl ⟨rfl, (Option.some.inj h).symm⟩)))
+  · have h2 : nmSys.node? 4 = some nmN4 := rfl
+    rw [h2] at h; exact Or.inr (Or.inr (Or.inr (Or.inr ⟨rfl, (Option.some.inj h).symm⟩)))
+  · have h2 : nmSys.node? (n + 5) = none := by simp [SSys.node?, nmSys]
+    rw [h2] at h; cases h
+
+theorem nmWF : TreeWF nmSys where
+  nodup := by decide
+  live := by
+    intro n
+    rcases n with _ | _ | _ | _ | _ | n
+    · decide
+    · decide
+    · decide
+    · decide
+    · decide
+    · have h2 : nmSys.node? (n + 5) = none := by simp [SSys.node?, nmSys]
+      rw [h2]; simp [nmSys]
+  bound := by decide
+  order := by
+    intro p c pd h hc
+    rcases nmNodes p pd h with ⟨rfl, rfl⟩ | ⟨rfl, rfl⟩ | ⟨rfl, rfl⟩ | ⟨rfl, rfl⟩ | ⟨rfl, rfl⟩ <;>
+      simp [nmN0, nmN1, nmN2, nmN3, nmN4] at hc <;> (try subst hc) <;> decide
+  parLive := by
+    intro n nd h p hp
+    rcases nmNodes n nd h with ⟨rfl, rfl⟩ | ⟨rfl, rfl⟩ | ⟨rfl, rfl⟩ | ⟨rfl, rfl⟩ | ⟨rfl, rfl⟩ <;>
+      simp [nmN0, nmN1, nmN2, nmN3, nmN4] at hp <;> (try rcases hp with rfl | rfl) <;> (try subst hp) <;> rfl
+  chLive := by
+    intro n nd h c hc
+    rcases nmNodes n nd h with ⟨rfl, rfl⟩ | ⟨rfl, rfl⟩ | ⟨rfl, rfl⟩ | ⟨rfl, rfl⟩ | ⟨rfl, rfl⟩ <;>
+      simp [nmN0, nmN1, nmN2, nmN3, nmN4] at hc <;> (try subst hc) <;> rfl
+  link := by
+    intro p c pd cd hp hc
+    rcases nmNodes p pd hp with ⟨rfl, rfl⟩ | ⟨rfl, rfl⟩ | ⟨rfl, rfl⟩ | ⟨rfl, rfl⟩ | ⟨rfl, rfl⟩ <;>
+      rcases nmNodes c cd hc with ⟨rfl, rfl⟩ | ⟨rfl, rfl⟩ | ⟨rfl, rfl⟩ | ⟨rfl, rfl⟩ | ⟨rfl, rfl⟩ <;>
+      simp [nmN0, nmN1, nmN2, nmN3, nmN4]
+  chNodup := by
+    intro n nd h
+    rcases nmNodes n nd h with ⟨rfl, rfl⟩ | ⟨rfl, rfl⟩ | ⟨rfl, rfl⟩ | ⟨rfl, rfl⟩ | ⟨rfl, rfl⟩ <;>
+      simp [nmN0, nmN1, nmN2, nmN3, nmN4]
+  parNodup := by
+    intro n nd h
+    rcases nmNodes n nd h with ⟨rfl, rfl⟩ | ⟨rfl, rfl⟩ | ⟨rfl, rfl⟩ | ⟨rfl, rfl⟩ | ⟨rfl, rfl⟩ <;>
+      simp [nmN0, nmN1, nmN2, nmN3, nmN4]
+  rootSrc := by
+    intro n nd h
+    rcases nmNodes n nd h with ⟨rfl, rfl⟩ | ⟨rfl, rfl⟩ | ⟨rfl, rfl⟩ | ⟨rfl, rfl⟩ | ⟨rfl, rfl⟩ <;>
+      simp [nmN0, nmN1, nmN2, nmN3, nmN4, nmA, nmB, nmM1, nmM2, nmL]
+  muxOnly := by
+    intro n nd h hl
+    rcases nmNodes n nd h with ⟨rfl, rfl⟩ | ⟨rfl, rfl⟩ | ⟨rfl, rfl⟩ | ⟨rfl, rfl⟩ | ⟨rfl, rfl⟩ <;>
+      simp [nmN0, nmN1, nmN2, nmN3, nmN4, nmM1] at hl ⊢
+  loadLeaf := by
+    intro n nd h hl
+    rcases nmNodes n nd h with ⟨rfl, rfl⟩ | ⟨rfl, rfl⟩ | ⟨rfl, rfl⟩ | ⟨rfl, rfl⟩ | ⟨rfl, rfl⟩ <;>
+      simp [nmN0, nmN1, nmN2, nmN3, nmN4, nmA, nmB, nmM1, nmM2, nmL, Kind.ctype] at hl ⊢
+
+theorem nmOK : CompsOK nmSys where
+  phys := by
+    intro n nd h
+    rcases nmNodes n nd h with ⟨rfl, rfl⟩ | ⟨rfl, rfl⟩ | ⟨rfl, rfl⟩ | ⟨rfl, rfl⟩ | ⟨rfl, rfl⟩ <;>
+      constructor <;>
+      simp [nmN0, nmN1, nmN2, nmN3, nmN4, nmA, nmB, nmM1, nmM2, nmL, Comp.muxRs, Param.Nonneg, Param.interp]
+  f01 := by
+    intro n nd h hk
+    rcases nmNodes n nd h with ⟨rfl, rfl⟩ | ⟨rfl, rfl⟩ | ⟨rfl, rfl⟩ | ⟨rfl, rfl⟩ | ⟨rfl, rfl⟩ <;>
+      simp [nmN0, nmN1, nmN2, nmN3, nmN4, nmA, nmB, nmM1, nmM2, nmL] at hk ⊢
+  conv := by
+    intro n nd h hk
+    rcases nmNodes n nd h with ⟨rfl, rfl⟩ | ⟨rfl, rfl⟩ | ⟨rfl, rfl⟩ | ⟨rfl, rfl⟩ | ⟨rfl, rfl⟩ <;>
+      simp [nmN0, nmN1, nmN2, nmN3, nmN4, nmA, nmB, nmM1, nmM2, nmL] at hk
+
+theorem nmSteady : Steady nmSys "" nmV nmI nmSt where
+  fwd := ⟨nmSt, by decide +kernel⟩
+  back := by decide +kernel
+  flag := by
+    intro n h
+    rcases n with _ | _ | _ | _ | _ | n
+    · decide +kernel
+    · revert h; decide
+    · revert h; decide
+    · revert h; decide
+    · revert h; decide
+    · simp [sget, nmSt] at h
+
+theorem nmPV : ∀ n nd, nmSys.node? n = some nd → PhaseValOK (nd.pconf.ctx "") := by
+  intro n nd h
+  rcases nmNodes n nd h with ⟨rfl, rfl⟩ | ⟨rfl, rfl⟩ | ⟨rfl, rfl⟩ | ⟨rfl, rfl⟩ | ⟨rfl, rfl⟩ <;>
+    simp [PhaseValOK, PhaseConf.ctx, nmN0, nmN1, nmN2, nmN3, nmN4]
+
+theorem nmAllNames : NamesDistinct nmSys := by
+  intro n m nd md hn hm hnm
+  rcases nmNodes n nd hn with ⟨rfl, rfl⟩ | ⟨rfl, rfl⟩ | ⟨rfl, rfl⟩ | ⟨rfl, rfl⟩ | ⟨rfl, rfl⟩ <;>
+    rcases nmNodes m md hm with ⟨rfl, rfl⟩ | ⟨rfl, rfl⟩ | ⟨rfl, rfl⟩ | ⟨rfl, rfl⟩ | ⟨rfl, rfl⟩ <;>
+    simp [nmN0, nmN1, nmN2, nmN3, nmN4, nmA, nmB, nmM1, nmM2, nmL] at hnm ⊢
+
+/-- (4) without `MuxInputsPlain` -/
+def subsystem_loss_le_power_full : Prop :=
+  ∀ (s : SSys ℚ), TreeWF s → NamesDistinct s → CompsOK s →
+    ∀ (phase : String), (∀ n nd, s.node? n = some nd → PhaseValOK (nd.pconf.ctx phase)) →
+    ∀ (ta : ℚ) (v i : Vec ℚ) (st : St), Steady s phase v i st →
+      ∀ sub ∈ (s.phaseTable phase ta v i st).subs,
+        ∃ P L, sub.pwr = some P ∧ sub.loss = some L ∧ 0 ≤ L ∧ L ≤ P
+
+/-- the rows of the nested-mux example: M2 and the load are attributed to the idle source A, the system
+    total is still 20 W / 4 W (`total_eff_le_100_table_partial` applies), but "Subsystem A" reads
+    Power 0 W, Loss 4 W -/
+theorem nm_table :
+    (nmSys.compRows "" 25 nmV nmI nmSt).map (fun r => (r.name, r.domain))
+      = [("A", "A"), ("B", "B"), ("M1", "B"), ("M2", "A"), ("L", "A")] ∧
+    (nmSys.phaseTable "" 25 nmV nmI nmSt).subs.map (fun r => (r.name, r.pwr, r.loss))
+      = [("Subsystem A", some 0, some 4), ("Subsystem B", some 20, some 0)] ∧
+    (nmSys.phaseTable "" 25 nmV nmI nmSt).total.pwr = some 20 ∧
+    (nmSys.phaseTable "" 25 nmV nmI nmSt).total.loss = some 4 := by
+  decide +kernel
+
+example : ∃ e, (nmSys.phaseTable "" 25 nmV nmI nmSt).total.eff = some e ∧ 0 ≤ e ∧ e ≤ 100 :=
+  total_eff_le_100_table_partial nmSys nmWF nmAllNames.src nmOK "" nmPV 25 nmV nmI nmSt nmSteady
+
+theorem subsystem_loss_le_power_full_fails : ¬ subsystem_loss_le_power_full := by
+  intro h
+  have hex : ∃ sub ∈ (nmSys.phaseTable "" 25 nmV nmI nmSt).subs, sub.pwr = some 0 ∧ sub.loss = some 4 := by
+    decide +kernel
+  obtain ⟨sub, hsub, e1, e2⟩ := hex
+  obtain ⟨P, L, hP, hL, _, hle⟩ := h nmSys nmWF nmAllNames nmOK "" nmPV 25 nmV nmI nmSt nmSteady sub hsub
+  rw [e1] at hP
+  rw [e2] at hL
+  simp only [Option.some.injEq] at hP hL
+  rw [← hP, ← hL] at hle
+  norm_num at hle
+
+/-! ### note on the per-subsystem statement (4)
+
+  `0 ≤ Loss ≤ Power` for one "Subsystem d" row needs the rows whose Domain is `d` to be closed under
+  "is fed by" (`D_feeder`).  For a PMux the model (like `_find_domain`) takes the Domain from the root
+  above the first input at non-zero voltage, following FIRST parents (`SSys.rootOf`; the Python picks a
+  root out of `rx.ancestors(...)`), whereas the current — and so the loss — flows through the input the
+  mux SELECTED.  In a steady state the two inputs coincide (`firstNonZero_eq_pri`: an off-flag sits on a
+  0 V output only), and above that input the first-parent path is THE supply path as long as it passes no
+  further PMux.  With a mux above a mux it is not: in `nmSys` the path B → M1 → M2 → L is split into the
+  Domains "B" (B, M1) and "A" (M2, L), and the idle source A is charged 4 W — "Subsystem A" reads Power
+  0 W, Loss 4 W (`nm_table`).  `System` never builds such a tree (one PMux at most), so this is a
+  limit of the solver-view statement, not a defect of the package; `_find_domain` silently relies on the
+  one-PMux rule.  The "System total" row does not: every row is attributed to exactly one listed
+  subsystem whatever the muxes (`rows_domain_covered`, `total_loss_eq_sum`). -/
 
 end C07
 end SysLoss
